@@ -42,6 +42,15 @@ class CNFizer(DagWalker):
         self.mgr = self.env.formula_manager
         self._introduced_variables: Dict[FNode, FNode] = {}
 
+    def _not(self, formula: FNode) -> FNode:
+        """Simplified negation, built in the environment of the converter.
+
+        FNode.simplify() would use the simplifier of the environment
+        on top of the stack, and return nodes of another formula
+        manager when the converter works in a different environment.
+        """
+        return self.env.simplifier.simplify(self.mgr.Not(formula))
+
     def _key_var(self, formula: FNode) -> FNode:
         if formula in self._introduced_variables:
             res = self._introduced_variables[formula]
@@ -72,7 +81,7 @@ class CNFizer(DagWalker):
                     # Prune clauses as ~tl -> l1 v ... v lk
                     simp = None
                     break
-                elif lit == self.mgr.Not(tl).simplify():
+                elif lit == self._not(tl):
                     # Simplify tl -> l1 v ... v lk
                     # into l1 v ... v lk
                     continue
@@ -116,7 +125,7 @@ class CNFizer(DagWalker):
             return args[0]
 
         k = self._key_var(formula)
-        _cnf = [frozenset([k] + [self.mgr.Not(a).simplify() for a,_ in args])]
+        _cnf = [frozenset([k] + [self._not(a) for a,_ in args])]
         for a,c in args:
             _cnf.append(frozenset([a, self.mgr.Not(k)]))
             for clause in c:
@@ -129,7 +138,7 @@ class CNFizer(DagWalker):
         k = self._key_var(formula)
         _cnf = [frozenset([self.mgr.Not(k)] + [a for a,_ in args])]
         for a,c in args:
-            _cnf.append(frozenset([k, self.mgr.Not(a).simplify()]))
+            _cnf.append(frozenset([k, self._not(a)]))
             for clause in c:
                 _cnf.append(clause)
         return k, frozenset(_cnf)
@@ -141,15 +150,15 @@ class CNFizer(DagWalker):
         elif a.is_false():
             return self.mgr.TRUE(), CNFizer.TRUE_CNF
         else:
-            return self.mgr.Not(a).simplify(), _cnf
+            return self._not(a), _cnf
 
     def walk_implies(self, formula,  args, **kwargs):
         a, cnf_a = args[0]
         b, cnf_b = args[1]
 
         k = self._key_var(formula)
-        not_a = self.mgr.Not(a).simplify()
-        not_b = self.mgr.Not(b).simplify()
+        not_a = self._not(a)
+        not_b = self._not(b)
         not_k = self.mgr.Not(k)
 
         return k, (cnf_a | cnf_b | frozenset([frozenset([not_a, b, not_k]),
@@ -161,8 +170,8 @@ class CNFizer(DagWalker):
         b, cnf_b = args[1]
 
         k = self._key_var(formula)
-        not_a = self.mgr.Not(a).simplify()
-        not_b = self.mgr.Not(b).simplify()
+        not_a = self._not(a)
+        not_b = self._not(b)
         not_k = self.mgr.Not(k)
 
         return k, (cnf_a | cnf_b | frozenset([frozenset([not_a, not_b, k]),
@@ -189,9 +198,9 @@ class CNFizer(DagWalker):
         else:
             (i,cnf_i),(t,cnf_t),(e,cnf_e) = args
             k = self._key_var(formula)
-            not_i = self.mgr.Not(i).simplify()
-            not_t = self.mgr.Not(t).simplify()
-            not_e = self.mgr.Not(e).simplify()
+            not_i = self._not(i)
+            not_t = self._not(t)
+            not_e = self._not(e)
             not_k = self.mgr.Not(k)
 
             return k, (cnf_i | cnf_t | cnf_e |
@@ -310,7 +319,7 @@ class PolarityCNFizer(CNFizer):
         if pol:
             _cnf.extend(frozenset([a, self.mgr.Not(k)]) for a, _ in args)
         else:
-            _cnf.extend([frozenset([k] + [self.mgr.Not(a).simplify() for a, _ in args])])
+            _cnf.extend([frozenset([k] + [self._not(a) for a, _ in args])])
 
         return k, frozenset(_cnf)
 
@@ -323,7 +332,7 @@ class PolarityCNFizer(CNFizer):
         if pol:
             _cnf.extend([frozenset([self.mgr.Not(k)] + [a for a, _ in args])])
         else:
-            _cnf.extend(frozenset([k, self.mgr.Not(a).simplify()]) for a, c in args)
+            _cnf.extend(frozenset([k, self._not(a)]) for a, c in args)
 
         return k, frozenset(_cnf)
 
@@ -332,8 +341,8 @@ class PolarityCNFizer(CNFizer):
         b, cnf_b = args[1]
 
         k = self._key_var(formula)
-        not_a = self.mgr.Not(a).simplify()
-        not_b = self.mgr.Not(b).simplify()
+        not_a = self._not(a)
+        not_b = self._not(b)
         not_k = self.mgr.Not(k)
         _cnf = []
         if pol:
@@ -350,8 +359,8 @@ class PolarityCNFizer(CNFizer):
         _, cnf_bn = args[3]
 
         k = self._key_var(formula)
-        not_a = self.mgr.Not(a).simplify()
-        not_b = self.mgr.Not(b).simplify()
+        not_a = self._not(a)
+        not_b = self._not(b)
         not_k = self.mgr.Not(k)
 
         return k, (cnf_ap | cnf_an | cnf_bp | cnf_bn
@@ -365,9 +374,9 @@ class PolarityCNFizer(CNFizer):
             return CNFizer.THEORY_PLACEHOLDER
         (i, cnf_ip), (_, cnf_in), (t, cnf_t), (e, cnf_e) = args
         k = self._key_var(formula)
-        not_i = self.mgr.Not(i).simplify()
-        not_t = self.mgr.Not(t).simplify()
-        not_e = self.mgr.Not(e).simplify()
+        not_i = self._not(i)
+        not_t = self._not(t)
+        not_e = self._not(e)
         not_k = self.mgr.Not(k)
 
         _cnf = []
